@@ -16,6 +16,7 @@ import (
 	"fmt"
 	"runtime"
 	"sort"
+	"strings"
 	"sync"
 	"sync/atomic"
 	"testing"
@@ -71,6 +72,7 @@ func (l *c06Log) snapshot() []c06Event {
 type c06Hold struct{}  // handler blocks at the receive gate
 type c06Plain struct{} // handler returns at once
 type c06Boom struct{}  // handler panics
+type c06Pipe struct{ name string } // handler starts a piped task (PipeTo self, or PipeToName) whose result is a c06Plain
 
 type c06Actor struct {
 	name      string
@@ -83,6 +85,8 @@ type c06Actor struct {
 	preGate   chan struct{} // gates PreStart number >= 2 (restart)
 	preBegan  chan struct{}
 	preN      atomic.Int32
+	taskGate  chan struct{} // the piped task completes when this is closed
+	nPipe     atomic.Int32
 	inRecv    atomic.Int32
 	inPost    atomic.Int32
 	nPre      atomic.Int32
@@ -113,6 +117,15 @@ func (a *c06Actor) Receive(ctx *ReceiveContext) {
 	switch ctx.Message().(type) {
 	case *c06Boom:
 		panic("boom")
+	case *c06Pipe:
+		m := ctx.Message().(*c06Pipe)
+		task := func() (any, error) { <-a.taskGate; return &c06Plain{}, nil }
+		if m.name != "" {
+			ctx.PipeToName(m.name, task)
+		} else {
+			ctx.PipeTo(ctx.Self(), task)
+		}
+		a.nPipe.Add(1)
 	case *c06Hold, *c06Plain:
 		_, hold := ctx.Message().(*c06Hold)
 		a.inRecv.Add(1)
@@ -346,6 +359,81 @@ func c06RunSpecial(t *testing.T, idx int, name string) c06PathOut {
 		close(a.preGate)
 		<-done
 		time.Sleep(30 * time.Millisecond)
+	case "pipe-result-lands:supervisor-restart-prestart/self", "pipe-result-lands:supervisor-restart-prestart/byname",
+		"pipe-result-lands:api-restart-prestart/self", "pipe-result-lands:api-restart-prestart/byname",
+		"pipe-result-lands:poststop/self", "pipe-result-lands:poststop/byname",
+		"pipe-result-lands:after-stop/self", "pipe-result-lands:after-stop/byname":
+		// an outstanding piped task (PipeTo self / PipeToName) completes at a chosen lifecycle point of
+		// its receiver: inside the second PreStart of a supervisor restart (the receiver is suspended),
+		// inside the second PreStart of PID.Restart, inside PostStop, after the stop
+		rest := strings.TrimPrefix(name, "pipe-result-lands:")
+		point, how, _ := strings.Cut(rest, "/")
+		a.taskGate = make(chan struct{})
+		switch point {
+		case "supervisor-restart-prestart", "api-restart-prestart":
+			a.preGate = make(chan struct{})
+		case "poststop":
+			a.postGate = make(chan struct{})
+		}
+		parent := newC06Actor("P", l)
+		ppid, err := sys.Spawn(ctx, "parent", parent, WithLongLived())
+		if err != nil {
+			t.Fatal(err)
+		}
+		restart := supervisor.NewSupervisor(supervisor.WithAnyErrorDirective(supervisor.RestartDirective))
+		pid, err := ppid.SpawnChild(ctx, "c", a, WithLongLived(), WithSupervisor(restart))
+		if err != nil {
+			t.Fatal(err)
+		}
+		msg := &c06Pipe{}
+		if how == "byname" {
+			msg.name = "c"
+		}
+		_ = Tell(ctx, pid, msg)
+		if !c06WaitFor(func() bool { return a.nPipe.Load() >= 1 }, 2*time.Second) {
+			note = "pipe-not-started"
+		}
+		time.Sleep(5 * time.Millisecond)
+		switch point {
+		case "supervisor-restart-prestart", "api-restart-prestart":
+			done := make(chan struct{})
+			if point == "api-restart-prestart" {
+				go func() { _ = pid.Restart(ctx); close(done) }()
+			} else {
+				_ = Tell(ctx, pid, &c06Boom{})
+				close(done)
+			}
+			select {
+			case <-a.preBegan:
+			case <-time.After(3 * time.Second):
+				note += " no-second-prestart"
+			}
+			time.Sleep(3 * time.Millisecond)
+			l.add("driver", "second-prestart-began")
+			close(a.taskGate)
+			c06WaitFor(func() bool { return a.nRecvE.Load() >= 1 }, 250*time.Millisecond)
+			l.add("driver", "observe")
+			close(a.preGate)
+			<-done
+			c06WaitFor(func() bool { return a.nPre.Load() >= 2 && pid.IsRunning() }, 2*time.Second)
+			time.Sleep(30 * time.Millisecond)
+		case "poststop":
+			d := make(chan struct{})
+			go func() { _ = pid.Shutdown(ctx); close(d) }()
+			<-a.postBegan
+			l.add("driver", "poststop-began")
+			close(a.taskGate)
+			c06WaitFor(func() bool { return a.nRecvE.Load() >= 1 }, 250*time.Millisecond)
+			l.add("driver", "observe")
+			close(a.postGate)
+			<-d
+			time.Sleep(20 * time.Millisecond)
+		case "after-stop":
+			_ = pid.Shutdown(ctx)
+			l.add("driver", "stopped")
+			close(a.taskGate)
+			time.Sleep(80 * time.Millisecond)
+		}
 	case "passivation-entry-fires-after-stop":
 		// the passivation manager has popped the entry and is about to call passivationTry when
 		// the actor is stopped by somebody else: emulated through the manager's own passivateFn hook
@@ -417,7 +505,11 @@ func TestVerifC06Paths(t *testing.T) {
 	}
 	for _, name := range []string{"inflight-tell-lands-during-poststop", "tell-after-poststop-ended-is-dropped", "public-tell-during-poststop-refused",
 		"restart-public-tell-during-prestart-refused", "restart-inflight-tell-lands-during-prestart", "passivation-entry-fires-after-stop",
-		"two-concurrent-shutdowns", "poisonpill-then-kill"} {
+		"two-concurrent-shutdowns", "poisonpill-then-kill",
+		"pipe-result-lands:supervisor-restart-prestart/self", "pipe-result-lands:supervisor-restart-prestart/byname",
+		"pipe-result-lands:api-restart-prestart/self", "pipe-result-lands:api-restart-prestart/byname",
+		"pipe-result-lands:poststop/self", "pipe-result-lands:poststop/byname",
+		"pipe-result-lands:after-stop/self", "pipe-result-lands:after-stop/byname"} {
 		w.put(c06RunSpecial(t, idx, name))
 		idx++
 	}
